@@ -1,0 +1,340 @@
+//go:build verif
+
+// Contracts for package inprocgrpc, read by /verif/engine (govc). Comment-only.
+
+package inprocgrpc
+
+// ---- small helpers ----
+//
+//@ func isNil
+//@   ensures[C06,C08] nil_interface_is_nil: m == nil ==> result
+//@   modifies nothing
+//
+//@ func (frame).kind
+//@   ensures[C03,C01] headers_first: m.headers != nil ==> result == 0
+//@   ensures[C03,C01] then_data: m.headers == nil && m.data != nil ==> result == 1
+//@   ensures[C03] then_trailers: m.headers == nil && m.data == nil && m.trailers != nil ==> result == 2
+//@   ensures[C02] then_error: m.headers == nil && m.data == nil && m.trailers == nil && m.err != nil ==> result == 3
+//@   ensures[C01] otherwise_unknown: m.headers == nil && m.data == nil && m.trailers == nil && m.err == nil ==> result == 4
+//@   modifies nothing
+//
+// ---- C10: the handler's context ----
+//
+//@ func (noValuesContext).Value
+//@   ensures[C10] exposes_no_values: result == nil
+//@   modifies nothing
+//
+//@ func ClientContext
+//@   modifies nothing
+//
+//@ func makeServerContext
+//@   ensures[C10] result != nil
+//@   assert_call[C10] metadata.NewIncomingContext : onto_the_value_free_context: typeis(arg0, "noValuesContext") && unbox(arg0, "noValuesContext").Context == ctx$entry
+//@   assert_call[C10] metadata.NewIncomingContext : callers_outgoing_metadata_becomes_incoming: arg1 == lastresult("metadata.FromOutgoingContext", 0) && lastarg("metadata.FromOutgoingContext", 0) == ctx$entry
+//@   ensures[C10] no_outgoing_metadata_no_incoming: !lastresult("metadata.FromOutgoingContext", 1) ==> !called("metadata.NewIncomingContext")
+//@   ensures[C10] outgoing_metadata_is_always_forwarded: lastresult("metadata.FromOutgoingContext", 1) ==> calls("metadata.NewIncomingContext") == 1
+//@   assert_call[C10,C13] peer.NewContext : in_process_peer_on_the_stripped_context: arg1 == &inprocessPeer && (called("metadata.NewIncomingContext") ==> arg0 == lastresult("metadata.NewIncomingContext")) && (!called("metadata.NewIncomingContext") ==> typeis(arg0, "noValuesContext") && unbox(arg0, "noValuesContext").Context == ctx$entry)
+//@   assert_call[C10] context.WithValue : only_back_door_is_the_client_context_key: arg0 == lastresult("peer.NewContext") && typeis(arg1, "*string") && unbox(arg1, "*string") == &clientContextKey && arg2 == ctx$entry
+//@   ensures[C10] result_is_the_chain_built_above: result == lastresult("context.WithValue") && calls("context.WithValue") == 1 && calls("peer.NewContext") == 1
+//@   modifies nothing
+
+// ---- Channel.Invoke (unary) ----
+//
+// svc_part / mtd_part: the two components of "/service/method" after the
+// leading slash has been ensured.
+//@ define slashed(m) = ite(len(m) > 0 && byteat(m, 0) == '/', m, "/" + m)
+//@ func (*Channel).Invoke
+//@   assert_call[C13] (*internal.CallOptions).SetPeer : in_process_peer: arg0 == lastresult("internal.GetCallOptions") && arg1 == &inprocessPeer
+//@   ensures[C06,C08] nil_request_is_rejected_before_anything_runs: called(isNil) && lastresult(isNil) ==> is_status_err(result) && err_status_code(result) == 13 && !called("go") && !called("internal.ApplyPerRPCCreds")
+//@   assert_call[C13] internal.ApplyPerRPCCreds : always_secure_with_inproc_uri: arg0 == ctx$entry && arg1 == lastresult("internal.GetCallOptions") && arg3 && arg2 == fmt_inproc(slashed(method$entry))
+//@   ensures[C13] credential_failure_runs_nothing: called("internal.ApplyPerRPCCreds") && lastresult("internal.ApplyPerRPCCreds", 1) != nil ==> result == lastresult("internal.ApplyPerRPCCreds", 1) && !called("go")
+//@   assert_call[C12] strings.SplitN : service_and_method_after_the_leading_slash: arg0 == substr(slashed(method$entry), 1, len(slashed(method$entry))) && arg1 == "/" && arg2 == 2
+//@   ensures[C12] malformed_name_is_a_status_error: called("strings.SplitN") && len(lastresult("strings.SplitN")) < 2 ==> is_status_err(result) && !called("go")
+//@   assert_call[C12] (grpchan.HandlerMap).QueryService : by_service_name: arg0 == c.handlers && arg1 == lastresult("strings.SplitN")[0]
+//@   ensures[C12] unknown_service_is_unimplemented: called("(grpchan.HandlerMap).QueryService") && lastresult("(grpchan.HandlerMap).QueryService", 0) == nil ==> is_status_err(result) && err_status_code(result) == 12 && !called("go")
+//@   assert_call[C12] internal.FindUnaryMethod : by_method_name_among_the_services_methods: arg0 == lastresult("strings.SplitN")[1] && arg1 == lastresult("(grpchan.HandlerMap).QueryService", 0).Methods
+//@   ensures[C12] unknown_method_is_unimplemented: called("internal.FindUnaryMethod") && lastresult("internal.FindUnaryMethod") == nil ==> is_status_err(result) && err_status_code(result) == 12 && !called("go")
+//@   ensures[C05,C04] derived_context_is_always_cancelled: called("context.WithCancel") ==> calls("context.CancelFunc") == 1
+//@   ensures[C05] at_most_one_server_goroutine: calls("go") <= 1
+//@   chan_cap_bound[C20] 1
+//@   blocking_escape[C05,C04] ctx
+//@   loop loop#1 invariant[C08] one_copy_per_response: (gotResponse <==> calls("inprocgrpc.Cloner.Copy") == 1) && calls("inprocgrpc.Cloner.Copy") <= 1 && calls("go") == 1 && calls("context.WithCancel") == 1 && !called("context.CancelFunc") && !called("internal.TranslateContextError")
+//@   ensures[C08] success_means_exactly_one_response_was_copied: result == nil && called("go") ==> calls("inprocgrpc.Cloner.Copy") == 1
+//@   assert_call[C06,C01] inprocgrpc.Cloner.Copy : response_is_copied_into_the_callers_message: arg1 == resp && arg2 == r.data && r.data != nil
+//@   ensures[C04] never_a_bare_context_error: called("go") && result != context.Canceled && result != context.DeadlineExceeded || !called("go") || called("inprocgrpc.Cloner.Copy")
+//@   ensures[C02,C04] error_frame_is_translated: called("internal.TranslateContextError") ==> result == lastresult("internal.TranslateContextError")
+//@   assert_call[C03] (*internal.CallOptions).SetHeaders : header_frame_to_the_call_options: arg0 == lastresult("internal.GetCallOptions") && arg1 == r.headers
+//@   assert_call[C03] (*internal.CallOptions).SetTrailers : trailer_frame_to_the_call_options: arg0 == lastresult("internal.GetCallOptions") && arg1 == r.trailers
+//@   modifies everything
+
+// ---- Channel.NewStream ----
+//
+//@ func (*Channel).NewStream
+//@   assert_call[C13] (*internal.CallOptions).SetPeer : in_process_peer: arg0 == lastresult("internal.GetCallOptions") && arg1 == &inprocessPeer
+//@   assert_call[C13] internal.ApplyPerRPCCreds : always_secure_with_inproc_uri: arg0 == ctx$entry && arg1 == lastresult("internal.GetCallOptions") && arg3 && arg2 == fmt_inproc(slashed(method$entry))
+//@   ensures[C13] credential_failure_runs_nothing: called("internal.ApplyPerRPCCreds") && lastresult("internal.ApplyPerRPCCreds", 1) != nil ==> result1 == lastresult("internal.ApplyPerRPCCreds", 1) && result0 == nil && !called("go")
+//@   assert_call[C12] strings.SplitN : service_and_method_after_the_leading_slash: arg0 == substr(slashed(method$entry), 1, len(slashed(method$entry))) && arg1 == "/" && arg2 == 2
+//@   ensures[C12] malformed_name_is_a_status_error: called("strings.SplitN") && len(lastresult("strings.SplitN")) < 2 ==> is_status_err(result1) && result0 == nil && !called("go")
+//@   assert_call[C12] (grpchan.HandlerMap).QueryService : by_service_name: arg0 == c.handlers && arg1 == lastresult("strings.SplitN")[0]
+//@   ensures[C12] unknown_service_is_unimplemented: called("(grpchan.HandlerMap).QueryService") && lastresult("(grpchan.HandlerMap).QueryService", 0) == nil ==> is_status_err(result1) && err_status_code(result1) == 12 && result0 == nil && !called("go")
+//@   assert_call[C12] internal.FindStreamingMethod : by_method_name_among_the_services_streams: arg0 == lastresult("strings.SplitN")[1] && arg1 == lastresult("(grpchan.HandlerMap).QueryService", 0).Streams
+//@   ensures[C12] unknown_method_is_unimplemented: called("internal.FindStreamingMethod") && lastresult("internal.FindStreamingMethod") == nil ==> is_status_err(result1) && err_status_code(result1) == 12 && result0 == nil && !called("go")
+//@   chan_cap_bound[C20] 1
+//@   ensures[C05,C01] one_server_goroutine_per_stream: result1 == nil ==> calls("go") == 1 && result0 != nil
+//@   ensures[C20,C01,C05] client_stream_is_wired_to_fresh_one_slot_channels: result1 == nil ==> typeis(result0, "*inProcessClientStream") && chcap(unbox(result0, "*inProcessClientStream").requests) == 1 && chcap(unbox(result0, "*inProcessClientStream").responses) == 1 && fresh(unbox(result0, "*inProcessClientStream").requests) && fresh(unbox(result0, "*inProcessClientStream").responses) && unbox(result0, "*inProcessClientStream").requests != unbox(result0, "*inProcessClientStream").responses
+//@   assert_call[C10,C04] makeServerContext : from_the_cancellable_call_context: arg0 == lastresult("context.WithCancel", 0) && calls("context.WithCancel") == 1
+//@   modifies everything
+
+// ---- frame transport: readMessage / writeMessage (C01, C04, C05, C20) ----
+//
+//@ func writeMessage
+//@   requires !closed(ch) && ch != nil
+//@   blocking_escape[C05,C04,C20] ctx
+//@   ensures[C04,C05] only_nil_eof_or_the_context_error: result == nil || result == io.EOF || result == ctx_err(ctx)
+//@   ensures[C05] eof_only_when_the_remote_side_is_done: result == io.EOF ==> remoteCtx != nil
+//@   modifies nothing
+//
+//@ func readMessage
+//@   blocking_escape[C05,C04] ctx
+//@   ensures[C04] success_only_with_a_live_context: result1 == nil ==> ctx_err(ctx) == nil
+//@   ensures[C04,C05] errors_are_eof_or_the_context_error: result1 == nil || result1 == io.EOF || (result1 == ctx_err(ctx) && result1 != nil)
+//@   ensures[C01] eof_only_when_the_channel_is_closed_and_drained: result1 == io.EOF ==> closed(ch)
+//@   modifies nothing
+
+// ---- the server goroutine of a unary call ----
+//
+// Frames are written in the order [headers] [data] [trailers] [error]; the
+// data frame is the handler's response and exists iff the handler returned
+// (non-nil response, nil error); the error frame is last and carries the
+// handler's error, or Internal when the handler returned neither.
+//@ closure (*Channel).Invoke.go#1
+//@   requires ch != nil && !closed(ch)
+//@   sole_closer ch
+//@   ensures[C05] reply_channel_closed_exactly_once_after_finish: closed(ch) && calls("(*internal.UnaryServerTransportStream).Finish") == 1
+//@   ensures[C16,C08] handler_runs_exactly_once: calls("grpc.MethodDesc.Handler") == 1
+//@   assert_call[C10] makeServerContext : from_the_calls_cancellable_context: arg0 == ctx$captured
+//@   assert_call[C10,C03] grpc.NewContextWithServerTransportStream : stripped_context_with_this_calls_stream: arg0 == lastresult(makeServerContext) && arg1 == boxed(&sts)
+//@   assert_call[C16,C10,C12] grpc.MethodDesc.Handler : registered_server_fresh_context_copying_decoder_transport_interceptor: arg0 == handler && arg1 == lastresult(grpc.NewContextWithServerTransportStream) && arg2 == codec && arg3 == c.unaryInterceptor && calls(makeServerContext) == 1
+//@   assert_call[C01,C05] writeMessage : on_the_reply_channel_with_the_server_context: arg0 == lastresult(grpc.NewContextWithServerTransportStream) && arg1 == nil && arg2 == ch
+//@   assert_call[C03,C01] writeMessage : headers_frame_only_first: arg3.headers != nil ==> !called(writeMessage) && arg3.data == nil && arg3.trailers == nil && arg3.err == nil && arg3.headers == lastresult("(*internal.UnaryServerTransportStream).GetHeaders")
+//@   assert_call[C08,C01,C02] writeMessage : data_frame_is_the_handlers_response: arg3.headers == nil && arg3.data != nil ==> arg3.data == lastresult("grpc.MethodDesc.Handler", 0) && lastresult("grpc.MethodDesc.Handler", 1) == nil && arg3.trailers == nil && arg3.err == nil && (!called(writeMessage) || (calls(writeMessage) == 1 && lastarg(writeMessage, 3).headers != nil))
+//@   assert_call[C03] writeMessage : trailers_frame_after_data_before_error: arg3.headers == nil && arg3.data == nil && arg3.trailers != nil ==> arg3.err == nil && arg3.trailers == lastresult("(*internal.UnaryServerTransportStream).GetTrailers") && (!called(writeMessage) || (lastarg(writeMessage, 3).trailers == nil && lastarg(writeMessage, 3).err == nil))
+//@   assert_call[C02,C08] writeMessage : error_frame_last_with_the_handlers_error: arg3.headers == nil && arg3.data == nil && arg3.trailers == nil ==> arg3.err != nil && (lastresult("grpc.MethodDesc.Handler", 1) != nil ==> arg3.err == lastresult("grpc.MethodDesc.Handler", 1)) && (lastresult("grpc.MethodDesc.Handler", 1) == nil ==> is_status_err(arg3.err) && err_status_code(arg3.err) == 13) && (!called(writeMessage) || lastarg(writeMessage, 3).err == nil)
+//@   modifies everything
+
+// ---- the server goroutine of a streaming call ----
+//@ closure (*Channel).NewStream.go#1
+//@   requires responses != nil && !closed(responses)
+//@   ensures[C16,C05] handler_or_interceptor_runs_exactly_once: calls("grpc.StreamServerInterceptor") + calls("grpc.StreamDesc.Handler") == 1
+//@   ensures[C16] transport_interceptor_takes_precedence: called("grpc.StreamServerInterceptor") <==> old(c.streamInterceptor) != nil
+//@   assert_call[C16,C12] grpc.StreamServerInterceptor : registered_server_stream_info_and_handler: arg0 == handler && typeis(arg1, "*inProcessServerStream") && unbox(arg1, "*inProcessServerStream") == serverStream && arg2.FullMethod == method && arg2.IsClientStream == md.ClientStreams && arg2.IsServerStream == md.ServerStreams && arg3 == md.Handler
+//@   assert_call[C16,C12] grpc.StreamDesc.Handler : registered_server_and_this_stream: arg0 == handler && typeis(arg1, "*inProcessServerStream") && unbox(arg1, "*inProcessServerStream") == serverStream
+//@   assert_call[C01,C05,C06,C10] grpc.NewContextWithServerTransportStream : stream_context_from_the_server_context: arg0 == svrCtx && typeis(arg1, "*internal.ServerTransportStream") && unbox(arg1, "*internal.ServerTransportStream").Stream == boxed(serverStream) && unbox(arg1, "*internal.ServerTransportStream").Name == method && serverStream.cloner == cloner && serverStream.requests == requests && serverStream.responses == responses && serverStream.onDone == svrDoneCancel && serverStream.state == 0
+//@   ensures[C05,C02] stream_finished_exactly_once_then_server_context_cancelled: calls("(*inProcessServerStream).finish") == 1 && calls("var:svrCancel") == 1
+//@   assert_call[C02] (*inProcessServerStream).finish : with_the_handlers_error: arg0 == serverStream && (called("grpc.StreamDesc.Handler") ==> arg1 == lastresult("grpc.StreamDesc.Handler")) && (called("grpc.StreamServerInterceptor") ==> arg1 == lastresult("grpc.StreamServerInterceptor"))
+//@   assert_call[C05] var:svrCancel : after_finish: called("(*inProcessServerStream).finish")
+//@   modifies everything
+
+// ---- inProcessServerStream (C03, C05, C01, C06, C20) ----
+//
+//@ type inProcessServerStream
+//@   guarded_by mu : headers, trailers, state
+//@   closes_under mu : responses
+//@   final[C01,C02,C03,C05,C06,C20] ctx, onDone, cloner, requests, responses
+//@   invariant[C05] responses_closed_exactly_when_the_stream_is_closed: closed(self.responses) <==> self.state == 2
+//@   invariant[C03] state_is_valid: 0 <= self.state && self.state <= 2 && self.responses != nil
+//
+//@ func (*inProcessServerStream).TrySetTrailer
+//@   ensures[C03] closed_stream_trailers_refused_and_nothing_changes: at_lock(s.state == 2) ==> result != nil && s.trailers == at_lock(s.trailers) && (forall k string :: has(s.trailers, k) == at_lock(has(s.trailers, k)) && s.trailers[k] == at_lock(s.trailers[k]))
+//@   loop loop#1 invariant[C03] map_ready: md != at_lock(s.trailers) ==> s.trailers != nil && s.trailers != md && !(s.state == 2) && held(&s.mu) && (at_lock(s.trailers) != nil ==> s.trailers == at_lock(s.trailers))
+//@   loop loop#1 invariant[C03] visited_keys_grew_others_unchanged: md != at_lock(s.trailers) ==> (forall k string :: (iter_visited(k) && has(md, k) ==> has(s.trailers, k) && len(s.trailers[k]) == at_lock(len(s.trailers[k])) + len(md[k])) && (!iter_visited(k) ==> has(s.trailers, k) == at_lock(has(s.trailers, k)) && (has(s.trailers, k) ==> s.trailers[k] == at_lock(s.trailers[k]))))
+//@   loop loop#1 invariant[C03] source_map_unchanged: md != at_lock(s.trailers) ==> (forall k string :: has(md, k) == at_lock(has(md, k)) && md[k] == at_lock(md[k]) && (iter_visited(k) ==> has(md, k)))
+//@   ensures[C03] every_given_key_grows_by_its_values: !at_lock(s.state == 2) && md != at_lock(s.trailers) ==> (forall k string :: has(md, k) ==> has(s.trailers, k) && len(s.trailers[k]) == at_lock(len(s.trailers[k])) + len(md[k]))
+//@   ensures[C03] other_keys_keep_their_values: !at_lock(s.state == 2) && md != at_lock(s.trailers) ==> (forall k string :: !has(md, k) ==> has(s.trailers, k) == at_lock(has(s.trailers, k)) && (has(s.trailers, k) ==> s.trailers[k] == at_lock(s.trailers[k])))
+//@   ensures[C03] open_stream_accepts_trailers: !at_lock(s.state == 2) ==> result == nil
+//@   modifies s.trailers, maps("metadata.MD"), mem("string")
+//
+//@ func (*inProcessServerStream).setHeader
+//@   ensures[C03] headers_after_they_were_sent_refused_and_nothing_changes: at_lock(s.state != 0) ==> result != nil && s.headers == at_lock(s.headers) && (forall k string :: has(s.headers, k) == at_lock(has(s.headers, k)) && s.headers[k] == at_lock(s.headers[k]))
+//@   loop loop#1 invariant[C03] map_ready: md != at_lock(s.headers) ==> s.headers != nil && s.headers != md && !(s.state != 0) && held(&s.mu) && (at_lock(s.headers) != nil ==> s.headers == at_lock(s.headers))
+//@   loop loop#1 invariant[C03] visited_keys_grew_others_unchanged: md != at_lock(s.headers) ==> (forall k string :: (iter_visited(k) && has(md, k) ==> has(s.headers, k) && len(s.headers[k]) == at_lock(len(s.headers[k])) + len(md[k])) && (!iter_visited(k) ==> has(s.headers, k) == at_lock(has(s.headers, k)) && (has(s.headers, k) ==> s.headers[k] == at_lock(s.headers[k]))))
+//@   loop loop#1 invariant[C03] source_map_unchanged: md != at_lock(s.headers) ==> (forall k string :: has(md, k) == at_lock(has(md, k)) && md[k] == at_lock(md[k]) && (iter_visited(k) ==> has(md, k)))
+//@   ensures[C03] every_given_key_grows_by_its_values: !at_lock(s.state != 0) && md != at_lock(s.headers) && !send ==> (forall k string :: has(md, k) ==> has(s.headers, k) && len(s.headers[k]) == at_lock(len(s.headers[k])) + len(md[k]))
+//@   ensures[C03] other_keys_keep_their_values: !at_lock(s.state != 0) && md != at_lock(s.headers) && !send ==> (forall k string :: !has(md, k) ==> has(s.headers, k) == at_lock(has(s.headers, k)) && (has(s.headers, k) ==> s.headers[k] == at_lock(s.headers[k])))
+//@   ensures[C03] send_flushes_through_sendHeadersLocked: send && !at_lock(s.state != 0) ==> calls("(*inProcessServerStream).sendHeadersLocked") == 1 && result == lastresult("(*inProcessServerStream).sendHeadersLocked")
+//@   ensures[C03] plain_set_sends_nothing: !send ==> !called("(*inProcessServerStream).sendHeadersLocked") && (!at_lock(s.state != 0) ==> result == nil)
+//@   modifies everything
+//
+//@ func (*inProcessServerStream).sendHeadersLocked
+//@   requires held(&s.mu) && s.state == 0 && !closed(s.responses) && s.responses != nil
+//@   ensures[C03] at_most_one_header_frame_and_none_when_empty: calls(writeMessage) <= 1 && (old(len(s.headers)) == 0 ==> !called(writeMessage))
+//@   assert_call[C03,C01] writeMessage : headers_frame_on_the_response_channel: arg0 == s.ctx && arg1 == nil && arg2 == s.responses && arg3.headers == s.headers && arg3.data == nil && arg3.trailers == nil && arg3.err == nil
+//@   ensures[C03] failed_send_keeps_the_headers_pending: result != nil ==> s.state == 0 && s.headers == old(s.headers)
+//@   ensures[C03] after_success_headers_are_sent_for_good: result == nil ==> s.state == 1 && s.headers == nil
+//@   ensures[C05] does_not_close: closed(s.responses) == old(closed(s.responses))
+//@   modifies s.headers, s.state
+//
+//@ func (*inProcessServerStream).finish
+//@   requires !held(&s.mu) && !closed(s.responses) && s.responses != nil
+//@   sole_closer s.responses
+//@   assert_call[C05] inprocgrpc.inProcessServerStream.onDone : done_is_signalled_before_the_lock_is_taken: !held(&s.mu) && !called(writeMessage)
+//@   ensures[C05] done_signalled_exactly_once: calls("inprocgrpc.inProcessServerStream.onDone") == 1
+//@   ensures[C05,C02] stream_closed_exactly_once_and_lock_released: closed(s.responses) && !held(&s.mu)
+//@   assert_call[C01,C05] writeMessage : final_frames_on_the_response_channel_under_the_lock: arg0 == s.ctx && arg1 == nil && arg2 == s.responses && held(&s.mu)
+//@   assert_call[C03] writeMessage : pending_headers_go_first: arg3.headers != nil ==> !called(writeMessage) && arg3.data == nil && arg3.trailers == nil && arg3.err == nil
+//@   assert_call[C03] writeMessage : trailers_before_the_error: arg3.headers == nil && arg3.trailers != nil ==> arg3.data == nil && arg3.err == nil && (!called(writeMessage) || lastarg(writeMessage, 3).headers != nil)
+//@   assert_call[C02] writeMessage : error_frame_is_the_handlers_error_and_comes_last: arg3.headers == nil && arg3.trailers == nil ==> arg3.data == nil && arg3.err == err && err != nil && (!called(writeMessage) || lastarg(writeMessage, 3).err == nil)
+//@   ensures[C02] a_failed_handler_always_gets_its_error_frame_attempted: err != nil ==> called(writeMessage) && lastarg(writeMessage, 3).err == err
+//@   ensures[C02] a_successful_handler_sends_no_error_frame: err == nil ==> !called(writeMessage) || lastarg(writeMessage, 3).err == nil
+//@   ensures[C20,C05] no_data_frames_from_finish: calls(writeMessage) <= 3
+//@   modifies s.state, s.trailers
+//
+//@ func (*inProcessServerStream).SendMsg
+//@   ensures[C05] after_the_end_sends_report_eof_and_send_nothing: !called(writeMessage) && !called("(*inProcessServerStream).sendHeadersLocked") ==> result != nil
+//@   assert_call[C03] (*inProcessServerStream).sendHeadersLocked : headers_flushed_before_the_first_message: arg0 == s && !called(writeMessage) && s.state == 0
+//@   assert_call[C06,C01] inprocgrpc.Cloner.Clone : of_the_handlers_message: arg0 == s.cloner && arg1 == m$entry
+//@   assert_call[C06,C01,C20] writeMessage : data_frame_carries_the_clone_never_the_original: arg0 == s.ctx && arg1 == nil && arg2 == s.responses && arg3.data == lastresult("inprocgrpc.Cloner.Clone", 0) && lastresult("inprocgrpc.Cloner.Clone", 1) == nil && arg3.headers == nil && arg3.trailers == nil && arg3.err == nil && s.state == 1 && held(&s.mu)
+//@   ensures[C20,C01] exactly_one_data_frame_per_successful_send: result == nil ==> calls(writeMessage) == 1
+//@   ensures[C20] never_more_than_one_data_frame_per_send: calls(writeMessage) <= 1
+//@   ensures[C06] nil_message_is_refused: called(isNil) && lastresult(isNil) ==> is_status_err(result) && err_status_code(result) == 13 && !called(writeMessage)
+//@   modifies s.headers, s.state, external
+//
+//@ func (*inProcessServerStream).RecvMsg
+//@   assert_call[C01,C04] readMessage : next_request_frame_with_the_stream_context: arg0 == s.ctx && arg1 == s.requests
+//@   ensures[C04,C05] receive_error_is_returned: lastresult(readMessage, 1) != nil ==> result == lastresult(readMessage, 1) && !called("inprocgrpc.Cloner.Copy")
+//@   assert_call[C06,C01] inprocgrpc.Cloner.Copy : request_is_copied_into_the_handlers_message: arg0 == s.cloner && arg1 == m && arg2 == lastresult(readMessage, 0).data
+//@   ensures[C01,C06] at_most_one_copy_per_receive: calls("inprocgrpc.Cloner.Copy") <= 1
+//@   modifies external
+
+// ---- inProcessClientStream (C01, C03, C04, C05, C06, C08, C20) ----
+//
+//@ type inProcessClientStream
+//@   guarded_by respMu : state, last, headers, trailers
+//@   guarded_by reqMu : sendClosed
+//@   closes_under reqMu : requests
+//@   final[C01,C02,C03,C05,C06,C20] ctx, cloner, svrCtx, copts, responseStream, responses, requests
+//@   invariant[C05] requests_closed_exactly_when_send_closed: (closed(self.requests) <==> self.sendClosed) && self.requests != nil
+//
+//@ func (*inProcessClientStream).CloseSend
+//@   sole_closer s.requests
+//@   ensures[C05] half_closed_exactly_once: result == nil && s.sendClosed && closed(s.requests)
+//@   modifies s.sendClosed
+//
+//@ func (*inProcessClientStream).SendMsg
+//@   ensures[C05] send_after_close_fails_and_sends_nothing: at_lock(s.sendClosed) ==> result != nil && !called(writeMessage)
+//@   ensures[C06] nil_message_is_refused: called(isNil) && lastresult(isNil) ==> is_status_err(result) && err_status_code(result) == 13 && !called(writeMessage)
+//@   assert_call[C06,C01] inprocgrpc.Cloner.Clone : of_the_callers_message: arg0 == s.cloner && arg1 == m$entry
+//@   assert_call[C06,C01,C05,C20] writeMessage : data_frame_carries_the_clone_and_gives_up_when_the_server_is_done: arg0 == s.ctx && arg1 == s.svrCtx && arg2 == s.requests && arg3.data == lastresult("inprocgrpc.Cloner.Clone", 0) && lastresult("inprocgrpc.Cloner.Clone", 1) == nil && arg3.headers == nil && arg3.trailers == nil && arg3.err == nil && held(&s.reqMu) && !s.sendClosed
+//@   ensures[C20,C01] exactly_one_data_frame_per_successful_send: result == nil ==> calls(writeMessage) == 1
+//@   ensures[C20] never_more_than_one_frame_per_send: calls(writeMessage) <= 1
+//@   modifies external
+//
+//@ func (*inProcessClientStream).Trailer
+//@   ensures[C03] result == at_lock(s.trailers)
+//@   modifies nothing
+//
+//@ func (*inProcessClientStream).RecvMsg
+//@   ensures[C08,C01] delegates_under_the_lock_with_single_response_mode: calls("(*inProcessClientStream).recvMsgLocked") == 1 && result == lastresult("(*inProcessClientStream).recvMsgLocked")
+//@   assert_call[C08] (*inProcessClientStream).recvMsgLocked : last_message_iff_not_response_streaming: arg0 == s && arg1 == m && (arg2 <==> !s.responseStream) && held(&s.respMu)
+//@   modifies everything
+//
+//@ func (*inProcessClientStream).recvMsgLocked
+//@   requires held(&s.respMu)
+//@   loop loop#1 invariant[C01,C08] nothing_delivered_yet: !called("inprocgrpc.Cloner.Copy") && !called("(*inProcessClientStream).ensureNoMoreLocked") && !called("internal.TranslateContextError") && held(&s.respMu)
+//@   ensures[C01,C06] at_most_one_copy_into_the_callers_message: calls("inprocgrpc.Cloner.Copy") <= 1
+//@   assert_call[C06,C01] inprocgrpc.Cloner.Copy : into_the_callers_message: arg0 == s.cloner && arg1 == m
+//@   ensures[C04,C02] every_failure_before_a_message_is_translated: !called("inprocgrpc.Cloner.Copy") ==> called("internal.TranslateContextError") && result == lastresult("internal.TranslateContextError")
+//@   ensures[C08] single_response_mode_checks_for_extra_messages: lastMessage && called("inprocgrpc.Cloner.Copy") && lastresult("inprocgrpc.Cloner.Copy") == nil ==> calls("(*inProcessClientStream).ensureNoMoreLocked") == 1 && result == lastresult("(*inProcessClientStream).ensureNoMoreLocked")
+//@   ensures[C01] streaming_mode_returns_the_copy_result: !lastMessage && called("inprocgrpc.Cloner.Copy") ==> result == lastresult("inprocgrpc.Cloner.Copy") && !called("(*inProcessClientStream).ensureNoMoreLocked")
+//@   ensures[C01] copy_error_is_returned: called("inprocgrpc.Cloner.Copy") && lastresult("inprocgrpc.Cloner.Copy") != nil ==> result == lastresult("inprocgrpc.Cloner.Copy")
+//@   assert_call[C03] (*internal.CallOptions).SetHeaders : header_frame_to_stream_and_options: arg0 == s.copts && arg1 == r.headers && s.headers == r.headers && r.headers != nil
+//@   assert_call[C03] (*internal.CallOptions).SetTrailers : trailer_frame_to_stream_and_options: arg0 == s.copts && arg1 == r.trailers && s.trailers == r.trailers && r.trailers != nil
+//@   assert_call[C01,C04] readMessage : next_response_frame_with_the_stream_context: arg0 == s.ctx && arg1 == s.responses
+//@   modifies s.state, s.last, s.headers, s.trailers, mem("metadata.MD"), mem("error"), external
+//
+//@ func (*inProcessClientStream).ensureNoMoreLocked
+//@   requires held(&s.respMu)
+//@   ensures[C08] probes_once_for_another_message: calls("(*inProcessClientStream).recvMsgLocked") == 1
+//@   assert_call[C06,C08] (*inProcessClientStream).recvMsgLocked : probe_never_touches_the_callers_message: arg0 == s && arg1 != m && !arg2
+//@   ensures[C08] a_second_message_is_an_internal_error: lastresult("(*inProcessClientStream).recvMsgLocked") == nil ==> is_status_err(result) && err_status_code(result) == 13 && s.state == 2 && s.last != nil && s.last.err == result
+//@   ensures[C08] clean_end_is_success: lastresult("(*inProcessClientStream).recvMsgLocked") == io.EOF ==> result == nil
+//@   ensures[C02,C08] a_failure_after_the_message_takes_precedence: lastresult("(*inProcessClientStream).recvMsgLocked") != nil && lastresult("(*inProcessClientStream).recvMsgLocked") != io.EOF ==> result == lastresult("(*inProcessClientStream).recvMsgLocked")
+//@   modifies s.state, s.last, s.headers, s.trailers, mem("metadata.MD"), mem("error"), external
+//
+//@ func (*inProcessClientStream).Header
+//@   ensures[C03] returns_the_headers_seen_so_far: result1 == nil ==> result0 == s.headers
+//@   assert_call[C04,C01] readMessage : first_frame_with_the_stream_context: arg0 == s.ctx && arg1 == s.responses && at_lock(s.state) == 0
+//@   ensures[C04] receive_failure_is_returned: called(readMessage) && lastresult(readMessage, 1) != nil && lastresult(readMessage, 1) != io.EOF ==> result0 == nil && result1 == lastresult(readMessage, 1)
+//@   ensures[C03] reads_at_most_one_frame: calls(readMessage) <= 1
+//@   assert_call[C03] (*internal.CallOptions).SetHeaders : header_frame_to_stream_and_options: arg0 == s.copts && arg1 == m.headers && s.headers == m.headers && m.headers != nil
+//@   assert_call[C03] (*internal.CallOptions).SetTrailers : trailer_frame_to_stream_and_options: arg0 == s.copts && arg1 == m.trailers && s.trailers == m.trailers && m.trailers != nil && m.headers == nil && m.data == nil
+//@   ensures[C01,C02] a_data_or_error_frame_is_kept_for_the_next_receive: called(readMessage) && lastresult(readMessage, 1) == nil && lastresult(readMessage, 0).headers == nil && (lastresult(readMessage, 0).data != nil || lastresult(readMessage, 0).trailers == nil) ==> s.last != nil && s.last.data == lastresult(readMessage, 0).data && s.last.err == lastresult(readMessage, 0).err
+//@   modifies s.state, s.last, s.headers, s.trailers, mem("metadata.MD"), mem("inprocgrpc.frame"), external
+
+// ---- cloner.go (C18, C06) ----
+//
+//@ func (ProtoCloner).Copy
+//@   ensures[C18] two_messages_use_the_protobuf_copy: implements(out, "proto.Message") && implements(in, "proto.Message") ==> calls("internal.CopyMessage") == 1 && result == lastresult("internal.CopyMessage") && !called(CodecCloner)
+//@   assert_call[C18,C06] internal.CopyMessage : arg0 == out && arg1 == in
+//@   ensures[C18] anything_else_goes_through_the_registered_codec: !(implements(out, "proto.Message") && implements(in, "proto.Message")) ==> !called("internal.CopyMessage") && calls(CodecCloner) == 1 && calls("inprocgrpc.Cloner.Copy") == 1 && result == lastresult("inprocgrpc.Cloner.Copy")
+//@   assert_call[C18] CodecCloner : with_the_registered_proto_codec: arg0 == registered_codec("proto")
+//@   assert_call[C18] inprocgrpc.Cloner.Copy : arg0 == lastresult(CodecCloner) && arg1 == out && arg2 == in
+//@   modifies external
+//
+//@ func (ProtoCloner).Clone
+//@   ensures[C18] a_message_uses_the_protobuf_clone: implements(in, "proto.Message") ==> calls("internal.CloneMessage") == 1 && result0 == lastresult("internal.CloneMessage", 0) && result1 == lastresult("internal.CloneMessage", 1) && !called(CodecCloner)
+//@   assert_call[C18,C06] internal.CloneMessage : arg0 == in
+//@   ensures[C18] anything_else_goes_through_the_registered_codec: !implements(in, "proto.Message") ==> !called("internal.CloneMessage") && calls(CodecCloner) == 1 && calls("inprocgrpc.Cloner.Clone") == 1 && result0 == lastresult("inprocgrpc.Cloner.Clone", 0) && result1 == lastresult("inprocgrpc.Cloner.Clone", 1)
+//@   assert_call[C18] CodecCloner : with_the_registered_proto_codec: arg0 == registered_codec("proto")
+//@   modifies external
+//
+//@ func (*funcCloner).Copy
+//@   ensures[C18] calls("inprocgrpc.funcCloner.copy") == 1 && result == lastresult("inprocgrpc.funcCloner.copy")
+//@   assert_call[C18] inprocgrpc.funcCloner.copy : destination_first_then_source: arg0 == out && arg1 == in
+//@   modifies external
+//@ func (*funcCloner).Clone
+//@   ensures[C18] calls("inprocgrpc.funcCloner.clone") == 1 && result0 == lastresult("inprocgrpc.funcCloner.clone", 0) && result1 == lastresult("inprocgrpc.funcCloner.clone", 1)
+//@   assert_call[C18] inprocgrpc.funcCloner.clone : arg0 == in
+//@   modifies external
+//
+//@ func CloneFunc
+//@   ensures[C18] a1: typeis(result, "*funcCloner")
+//@   ensures[C18] a2: fresh(unbox(result, "*funcCloner"))
+//@   ensures[C18] a3: unbox(result, "*funcCloner").clone == fn$entry
+//@   ensures[C18] a4: isfunc(unbox(result, "*funcCloner").copy, "CloneFunc.copyFn")
+//@   ensures[C18] a5: *binding(unbox(result, "*funcCloner").copy, 0, "*func(interface{}) (interface{}, error)") == fn$entry
+//@   modifies nothing
+//
+//@ closure CloneFunc.copyFn
+//@   ensures[C18,C06] source_is_deep_cloned_first_exactly_once: calls("var:fn") == 1
+//@   assert_call[C18,C06] var:fn : of_the_source: arg0 == in$entry && !called("reflect.ValueOf")
+//@   ensures[C18] clone_failure_is_returned_and_destination_untouched: lastresult("var:fn", 1) != nil ==> result == lastresult("var:fn", 1) && !called("(reflect.Value).Set")
+//@   assert_call[C18,C06] reflect.ValueOf : first_the_clone_then_the_destination: (!called("reflect.ValueOf") ==> arg0 == lastresult("var:fn", 0)) && (called("reflect.ValueOf") ==> arg0 == out)
+//@   assert_call[C18,C06] (reflect.Value).Set : the_destination_receives_the_clone_not_the_source: arg0 == dest && arg1 == src && lastresult("(reflect.Value).CanSet")
+//@   ensures[C18] different_types_or_unsettable_are_refused: result == nil ==> calls("(reflect.Value).Set") == 1
+//@   ensures[C18] at_most_one_set: calls("(reflect.Value).Set") <= 1
+//@   modifies external
+//
+//@ func CopyFunc
+//@   ensures[C18] copy_is_the_given_function_clone_is_new_then_copy: typeis(result, "*funcCloner") && fresh(unbox(result, "*funcCloner")) && unbox(result, "*funcCloner").copy == fn$entry && isfunc(unbox(result, "*funcCloner").clone, "CopyFunc.cloneFn") && *binding(unbox(result, "*funcCloner").clone, 0, "*func(interface{}, interface{}) error") == fn$entry
+//@   modifies nothing
+//
+//@ closure CopyFunc.cloneFn
+//@   ensures[C18,C06] copies_once_into_a_fresh_value: calls("var:fn") == 1
+//@   assert_call[C18,C06] var:fn : fresh_destination_of_the_sources_type_then_source: arg0 == lastresult("(reflect.Value).Interface") && arg1 == in && lastarg("reflect.TypeOf", 0) == in
+//@   ensures[C18] copy_failure_yields_no_clone: lastresult("var:fn") != nil ==> result0 == nil && result1 == lastresult("var:fn")
+//@   ensures[C18,C06] success_returns_the_fresh_value: lastresult("var:fn") == nil ==> result1 == nil && result0 == lastresult("(reflect.Value).Interface")
+//@   modifies external
+//
+//@ func CodecCloner
+//@   ensures[C18] built_on_CopyFunc: calls(CopyFunc) == 1 && result == lastresult(CopyFunc)
+//@   assert_call[C18] CopyFunc : with_the_marshal_unmarshal_copy: isfunc(arg0, "CodecCloner.arg#1") && *binding(arg0, 0, "*encoding.Codec") == codec$entry
+//@   modifies nothing
+//
+//@ closure CodecCloner.arg#1
+//@   assert_call[C18] encoding.Codec.Marshal : the_source_with_the_given_codec: arg0 == codec && arg1 == in
+//@   assert_call[C18] encoding.Codec.Unmarshal : the_marshalled_bytes_into_the_destination: arg0 == codec && arg1 == lastresult("encoding.Codec.Marshal", 0) && arg2 == out && lastresult("encoding.Codec.Marshal", 1) == nil
+//@   ensures[C18] marshal_failure_is_returned_without_touching_the_destination: lastresult("encoding.Codec.Marshal", 1) != nil ==> result == lastresult("encoding.Codec.Marshal", 1) && !called("encoding.Codec.Unmarshal")
+//@   ensures[C18] unmarshal_result_is_returned: called("encoding.Codec.Unmarshal") ==> result == lastresult("encoding.Codec.Unmarshal")
+//@   ensures[C18] marshals_exactly_once: calls("encoding.Codec.Marshal") == 1
+//@   modifies external
